@@ -2,7 +2,8 @@
 # usage: tools/sweep.sh [tier]   -- runs every claimed check once on /repo and prints one line each (exit code, summary)
 TIER=${1:-quick}
 cd /verif
-for id in $(python3 -c "import json; print(' '.join(c['property_id'] for c in json.load(open('MANIFEST.json'))['checks']))"); do
+IDS=${IDS:-$(python3 -c "import json; print(' '.join(c['property_id'] for c in json.load(open('MANIFEST.json'))['checks']))")}
+for id in $IDS; do
   t0=$(date +%s)
   out=$(./check $id --tier $TIER 2>&1); rc=$?
   t1=$(date +%s)
